@@ -224,6 +224,7 @@ int main(int argc, char ** argv)
 	std::set_terminate(onTerminate);
 	const bool faultMode = argc > 2 && std::string(argv[2]) == "--fault";
 	const int faultKinds = argc > 3 ? std::atoi(argv[3]) : 3;
+	const bool succession = argc > 4 && std::string(argv[4]) == "succession";
 	long faultRuns = 0, faultsFired = 0;
 	H.reserve(256);
 	std::string line;
@@ -248,6 +249,20 @@ int main(int argc, char ** argv)
 				disarmFault();
 				if(threw) ev("xf", 0, (int)k, 0, 0);          // the operation threw: the caller sees the exception, nothing else happened
 				else if(fired) ev("xs", 0, (int)k, 0, 0);     // a fault fired but the operation swallowed it
+				if(threw && succession) {
+					// faults in succession: the same operation is retried at once, fails at the same point again, and a third attempt must go through
+					const size_t at = ip - 1;
+					ip = at;
+					bool threw2 = false;
+					armFault(k, faultKinds);
+					try { step(); }
+					catch(const std::bad_alloc &) { threw2 = true; }
+					catch(const Fault &) { threw2 = true; }
+					const bool fired2 = g_faultFired;
+					disarmFault();
+					if(threw2) { ev("xf", 0, (int)k, 0, 0); ip = at; step(); }
+					else if(fired2) ev("xs", 0, (int)k, 0, 0);
+				}
 				epilogue();
 				++faultRuns;
 				if(fired) ++faultsFired;
